@@ -442,6 +442,9 @@ func buildCase(r *vgen.Rand, fam, proto, focus string, combo [3]int, short int, 
 		p := ""
 		if http {
 			p = vgen.Pick(r, genPaths)
+			if r.Chance(1, 6) { // a base path that already ends in a signal path: the signal path is appended all the same
+				p = vgen.Pick(r, []string{"", "/tenant", "/v1"}) + vgen.Pick(r, []string{"/v1/" + map[string]string{"trace": "traces", "metric": "metrics", "log": "logs"}[fam], "/v1/logs", "/v1/traces", "/v1/metrics"}) + vgen.Pick(r, []string{"", "", "/"})
+			}
 		} else if r.Chance(1, 4) {
 			p = vgen.Pick(r, []string{"/", "/", "/x", "/a/b"})
 		}
@@ -645,6 +648,11 @@ func corpusExp() []*expCase {
 		add(fam, "http", "generic endpoint with trailing slash", map[int]string{genEp: "http://{C}/"})
 		add(fam, "http", "generic endpoint /pre/", map[int]string{genEp: "http://{C}/pre/"})
 		add(fam, "http", "generic endpoint /pre", map[int]string{genEp: "http://{C}/pre"})
+		for _, sp := range []string{"/v1/logs", "/v1/traces", "/v1/metrics"} {
+			add(fam, "http", "generic endpoint whose path already is "+sp, map[int]string{genEp: "http://{C}" + sp})
+			add(fam, "http", "generic endpoint whose path already is "+sp+"/", map[int]string{genEp: "http://{C}" + sp + "/"})
+			add(fam, "http", "generic endpoint /tenant"+sp, map[int]string{genEp: "http://{C}/tenant" + sp})
+		}
 		// F-C20-3 shapes
 		add(fam, "http", "specific endpoint /custom/", map[int]string{specEp: "http://{B}/custom/"})
 		add(fam, "http", "specific endpoint /a//b/../c", map[int]string{specEp: "http://{B}/a//b/../c"})
@@ -1323,6 +1331,41 @@ func main() {
 			{},
 		} {
 			addSDK(Scenario{Kind: "limits", Env: c}, "sdk-limits", limitsEmit)
+		}
+		// corpus: WithRawSpanLimits with the all-zero value (documented: disables attributes, events,
+		// links), with single zero fields, and WithSpanLimits with zeros (rewritten to defaults) --
+		// without and with the OTEL_SPAN_* / OTEL_ATTRIBUTE_* variables set
+		zeroish := [][]int64{{0, 0, 0, 0, 0, 0}, {-1, 0, 128, 128, 128, 128}, {-1, 128, 0, 128, 128, 128}, {-1, 128, 128, 0, 128, 128},
+			{-1, 128, 128, 128, 0, 128}, {-1, 128, 128, 128, 128, 0}, {0, 128, 128, 128, 128, 128}, {0, 0, 0, 0, 0, 7}, {-1, 128, 128, 128, 128, 128}}
+		limEnvs := []map[string]string{{}, {"OTEL_SPAN_ATTRIBUTE_COUNT_LIMIT": "5", "OTEL_SPAN_EVENT_COUNT_LIMIT": "6", "OTEL_SPAN_LINK_COUNT_LIMIT": "7",
+			"OTEL_EVENT_ATTRIBUTE_COUNT_LIMIT": "8", "OTEL_LINK_ATTRIBUTE_COUNT_LIMIT": "9", "OTEL_SPAN_ATTRIBUTE_VALUE_LENGTH_LIMIT": "10"},
+			{"OTEL_ATTRIBUTE_COUNT_LIMIT": "4", "OTEL_ATTRIBUTE_VALUE_LENGTH_LIMIT": "3"}}
+		for _, l := range zeroish {
+			for _, ev := range limEnvs {
+				for _, kind := range []string{"raw", "legacy"} {
+					env := map[string]string{}
+					for k, v := range ev {
+						env[k] = v
+					}
+					addSDK(Scenario{Kind: "limits", Env: env, LimitsOpts: []LimitsOpt{{Kind: kind, L: l}}}, "sdk-limits", limitsEmit)
+				}
+			}
+		}
+		// log record limits: zero options over set variables (a count limit of 0 may mean "none" as
+		// documented or "unlimited" as the code has it, F-C17-2: both are accepted, the variable's value is not)
+		for _, ev := range []map[string]string{{}, {"OTEL_LOGRECORD_ATTRIBUTE_COUNT_LIMIT": "3", "OTEL_LOGRECORD_ATTRIBUTE_VALUE_LENGTH_LIMIT": "5"}} {
+			for _, io := range []map[string]int64{{"count": 0}, {"length": 0}, {"count": 0, "length": 0}, {"count": 128, "length": -1}} {
+				env, opts := map[string]string{}, map[string]int64{}
+				for k, v := range ev {
+					env[k] = v
+				}
+				for k, v := range io {
+					opts[k] = v
+				}
+				addSDK(Scenario{Kind: "loglimits", Env: env, IntOpts: opts}, "sdk-loglimits", func(sc *Scenario, res *Result) {
+					w.Add(logLimitsTerm(sc, res), map[string]any{"component": "log record limits", "env": sc.Env, "options": sc.IntOpts, "observed": res.Limits}, "sdk-log-limits", true)
+				})
+			}
 		}
 		for i, n := 0, o.Count(80, 800); i < n; i++ {
 			addSDK(genLimits(r.Fork()), "sdk-limits", limitsEmit)
